@@ -59,6 +59,24 @@ def times_case(p):
     return f"ok {'true' if verify else 'false'} {zlist(fw)} {zlist(bw)} {pairs_lit(impl)}", None
 
 
+def entry_case(p):
+    """the public entry point merge_double_ended (mirror-symmetric grid, so that the spatial pairing keeps every location), all combinations of
+    its two boolean options; the kept (forward, backward) measurement pairs are recovered from the tagged st / rst values"""
+    import contextlib, io
+    from dtscalibration.dts_accessor_utils import merge_double_ended
+
+    fw, bw, verify = p["fw"], p["bw"], p["verify"]
+    x = np.arange(4, dtype=float)
+    try:
+        with contextlib.redirect_stdout(io.StringIO()):
+            out = merge_double_ended(mk(fw, 1, x=x), mk(bw, 2, x=x), cable_length=3.0, plot_result=False, verify_timedeltas=verify, verbose=p["verbose"])
+    except Exception as e:
+        return None, f"{type(e).__name__}: {str(e)[:80]}"
+    sti, rsti = np.argmin(out.st.values[:, 0]), np.argmin(out.rst.values[:, 0])  # the row tagged 1000*0 of either channel
+    impl = list(zip(out.st.values[sti].astype(int).tolist(), out.rst.values[rsti].astype(int).tolist()))
+    return f"ok {'true' if verify else 'false'} {zlist(fw)} {zlist(bw)} {pairs_lit(impl)}", None
+
+
 def classify(p):
     fw, bw = p["fw"], p["bw"]
     same = len(fw) == len(bw) and len(fw) > 0
@@ -141,6 +159,17 @@ def run(ctx):
     ctx.extra["exhaustive"] = True
     ctx.count("histories", len(cases))
     run_batch(ctx, "times", cases, times_case, classify)
+    # the public entry point with every combination of its two boolean options (a deterministic matrix): histories in which the
+    # neighbour filter removes a pair, and histories with missing measurements
+    ent = []
+    for fw, bw in ([[0, 20000, 40000, 60000], [10000, 32000, 50000, 70000]], [[0, 20000, 40000, 60000, 80000], [10000, 30000, 52500, 70000, 90000]],
+                   [[0, 20000, 40000, 60000], [10000, 30000, 50000, 70000]], [[0, 20000, 60000, 80000], [10000, 30000, 50000, 70000, 90000]],
+                   [[0, 20000, 40000, 60000, 80000], [10000, 31750, 70000, 90000]]):
+        for verify in (False, True):
+            for verbose in (False, True):
+                ent.append({"family": "entry", "fw": fw, "bw": bw, "verify": verify, "verbose": verbose})
+    ctx.count("entry-point option combinations", len(ent))
+    run_batch(ctx, "entry", ent, entry_case, lambda p: classify(p) + f",verbose={int(p['verbose'])}")
     # spatial part
     rng = ctx.rng("spatial")
     sp = []
@@ -175,3 +204,5 @@ def replay(ctx, data):
         run_batch(ctx, "spatial", [p], spatial_case, lambda p: "grid")
     elif p.get("family") == "times":
         run_batch(ctx, "times", [p], times_case, classify)
+    elif p.get("family") == "entry":
+        run_batch(ctx, "entry", [p], entry_case, lambda p: classify(p) + f",verbose={int(p['verbose'])}")
